@@ -30,3 +30,27 @@ package flight12
 //@ ensures zero-on-failure: !result1 ==> result0 == 0
 //@ loop #1: scanned: forall(0, idx, func(i int) bool { return remoteCurves[i] == HYBRID() || forall(0, len(localCurves), func(j int) bool { return remoteCurves[i] != localCurves[j] }) })
 //@ end
+
+// Server, first ClientHello (RFC 5246 7.4.1.2/7.4.1.4, RFC 8422 5.1, RFC 7627 5.3): every negotiated value is
+// taken from the intersection of the two sides' lists; when a list the client sent has no common entry
+// the server answers with a fatal alert instead of continuing with a default.
+//@ assume-pure CipherSuite.ID
+
+//@ func flight0Parse
+//@ watch selectEllipticCurve! FindMatchingCipherSuite!
+//@ loop cipherSuites: offered-non-nil: forall(0, len(cipherSuites), func(k int) bool { return !isNil(cipherSuites[k]) })
+//@ loop cipherSuites: offered-fresh: fresh(cipherSuites)
+//@ loop cipherSuites: local-kept: forall(0, len(cfg.LocalCipherSuites), func(i int) bool { return !isNil(cfg.LocalCipherSuites[i]) })
+//@ loop filteredCipherSuites: in-place: sameArray(filteredCipherSuites, cipherSuites) && offsetOf(filteredCipherSuites) == offsetOf(cipherSuites) && len(filteredCipherSuites) <= idx
+//@ loop filteredCipherSuites: offered-non-nil: forall(0, len(cipherSuites), func(k int) bool { return !isNil(cipherSuites[k]) })
+//@ loop filteredCipherSuites: filtered-non-nil: forall(0, len(filteredCipherSuites), func(k int) bool { return !isNil(filteredCipherSuites[k]) })
+//@ loop filteredCipherSuites: offered-fresh: fresh(cipherSuites)
+//@ loop filteredCipherSuites: local-kept: forall(0, len(cfg.LocalCipherSuites), func(i int) bool { return !isNil(cfg.LocalCipherSuites[i]) })
+//@ ensures no-common-suite-aborts: called("FindMatchingCipherSuite!") && !retBool("FindMatchingCipherSuite!", 1) ==> result0 == 0 && result1 != nil && result1.Level == alert.Fatal && result2 != nil
+//@ ensures suite-from-local-list: result0 != 0 ==> called("FindMatchingCipherSuite!") && sameSlice(argAs("FindMatchingCipherSuite!", 1, cfg.LocalCipherSuites), old(cfg.LocalCipherSuites))
+//@ ensures no-common-curve-aborts: called("selectEllipticCurve!") && !retBool("selectEllipticCurve!", 1) ==> result0 == 0 && result1 != nil && result1.Level == alert.Fatal && result2 != nil
+//@ ensures curve-from-both-lists: called("selectEllipticCurve!") ==> sameSlice(argAs("selectEllipticCurve!", 0, cfg.EllipticCurves), old(cfg.EllipticCurves))
+//@ ensures version-is-1-2: result0 != 0 ==> clientHello.Version.Major == 0xfe && clientHello.Version.Minor == 0xfd
+//@ ensures ems-required: result0 != 0 && old(cfg.ExtendedMasterSecret) == dtlsconfig.RequireExtendedMasterSecret ==> state.ExtendedMasterSecret
+//@ ensures ems-never-when-disabled: old(cfg.ExtendedMasterSecret) == dtlsconfig.DisableExtendedMasterSecret && !old(state.ExtendedMasterSecret) ==> !state.ExtendedMasterSecret
+//@ end
